@@ -1,5 +1,6 @@
 import GlyModel.Api.Convert
 import GlyProofs.Api.HeapLemmas
+import GlyProofs.Api.LifecycleLemmas
 /-
   C11 — Conversions do not influence each other or the host process. (Property theorems only.)
 -/
@@ -89,5 +90,14 @@ theorem C11_without_copy_counterexample :
 theorem C11_unstarted_generator_no_effect (conv : Input → Outcome) (single : Option Input)
     (list fileLines gen : Option (List Input)) (verbose : Verbose) (w : World) :
     (convertGeneratorUnstarted conv single list fileLines gen verbose w).2 = w := rfl
+
+open Gly.Life in
+/-- **`get_smiles` leaves the object's tree alone** (Model `Life.getSmiles`, after repair of the lazy path): on a `tree_only` object the
+    options and the `tree_full` flag are what they were – only the cache is filled – so `get_tree`, `count`, `save_dot` answer the
+    same before and after; tied by the histories that repeat these methods around `get_smiles` / `summary`. -/
+theorem C11_get_smiles_keeps_the_tree (valid : List Char → Bool) (o o' : Obj) (tfLazy : Bool) (mergedLazy : Option (List Char))
+    (r : List Char) (h : getSmiles valid o tfLazy mergedLazy = some (r, o')) :
+    o'.treeOnly = o.treeOnly ∧ o'.full = o.full ∧ (o.treeOnly = true → o'.treeFull = o.treeFull) :=
+  getSmiles_keeps_tree valid o o' tfLazy mergedLazy r h
 
 end Gly.Props.C11
